@@ -128,6 +128,18 @@ def uf(name, *sorts):
     return _UF[k]
 
 
+def prefix_term(st, p, s):
+    """s.startswith(p).  For a constant prefix the theory predicate is used; for a symbolic prefix an uninterpreted
+    predicate with its defining consequence (the sequence solver is incomplete on negated symbolic prefixes -- measured)."""
+    if concrete_str(p) is not None:
+        return z3.PrefixOf(p, s)
+    f = uf("prefix_of", STR, STR, BOOL)
+    t = f(p, s)
+    st.assume(z3.Implies(t, z3.And(z3.Length(p) <= z3.Length(s), z3.SubSeq(s, ival(0), z3.Length(p)) == p)),
+              "ax:prefix-def")
+    return t
+
+
 def itos(st, n):
     f = uf("itos", INT, STR)
     g = uf("stoi", STR, INT)
@@ -431,6 +443,25 @@ def call_builtin(ex, reg, st, f: VBuiltin, args, kwargs, node):
             raise EngineUnsupported(f"{name}() outside a for header")
         raise EngineUnsupported(f"builtin {name} (line {ln})")
 
+    # ---- compiled regular expression objects (class attributes): abstract match with ghost group functions.
+    # The pattern text is part of the ghost function's name, so a changed literal is a different function; what the
+    # literal means is pinned down by the finite obligations regex::language-header (pyvc/enum_matcher.py).
+    if isinstance(recv, VPy) and isinstance(recv.obj, tuple) and recv.obj[0] == "regex" and name == "regex.match":
+        pat = recv.obj[1]
+        pid_ = "re_" + __import__("hashlib").sha256(pat.encode()).hexdigest()[:8]
+        s_ = args[0]
+        if not isinstance(s_, VStr):
+            raise EngineUnsupported("regex match on non-str")
+        m_ = uf(pid_ + "_matches", STR, BOOL)(s_.t)
+        out = []
+        for s2, b in ex.branch(st, m_):
+            out.append((s2, VPy(("rematch", pat, s_.t)) if b else VNone))
+        return out
+    if isinstance(recv, VPy) and isinstance(recv.obj, tuple) and recv.obj[0] == "rematch" and name == "rematch.group":
+        pat, txt = recv.obj[1], recv.obj[2]
+        pid_ = "re_" + __import__("hashlib").sha256(pat.encode()).hexdigest()[:8]
+        gi = z3.simplify(ex.as_int(args[0]))
+        return [(st, VStr(uf(pid_ + "_group%d" % gi.as_long(), STR, STR)(txt)))]
     # ---- methods on str
     if isinstance(recv, VStr):
         s = recv.t
@@ -450,7 +481,7 @@ def call_builtin(ex, reg, st, f: VBuiltin, args, kwargs, node):
             p = args[0]
             if not isinstance(p, VStr):
                 raise EngineUnsupported("startswith(non-str)")
-            return [(st, VBool(z3.PrefixOf(p.t, s)))]
+            return [(st, VBool(prefix_term(st, p.t, s)))]
         if name == "endswith":
             return [(st, VBool(z3.SuffixOf(args[0].t, s)))]
         if name == "replace":
@@ -653,7 +684,7 @@ def spec_builtin(ex, reg, st, name, args, kwargs, node) -> Val:
             return VStr(mk_str(""))
         return VStr(join(st, mk_str("\n"), t))
     if name == "startswith":
-        return VBool(z3.PrefixOf(S(1), S(0)))
+        return VBool(prefix_term(st, S(1), S(0)))
     if name == "endswith":
         return VBool(z3.SuffixOf(S(1), S(0)))
     if name == "seq_empty":
@@ -688,6 +719,14 @@ def spec_builtin(ex, reg, st, name, args, kwargs, node) -> Val:
         return VSeq(T_STR, split_char(reg, st, S(0), ord(sep)))
     if name == "first_ws_hash":
         return VInt(first_pair(reg, st, S(0), "WS", "SET:35"))
+    if name in ("re_matches", "re_group1"):
+        pat = concrete_str(S(0))
+        pid_ = "re_" + __import__("hashlib").sha256(pat.encode()).hexdigest()[:8]
+        if name == "re_matches":
+            return VBool(uf(pid_ + "_matches", STR, BOOL)(S(1)))
+        return VStr(uf(pid_ + "_group1", STR, STR)(S(1)))
+    if name == "typed_is_str":
+        return VBool(z3.BoolVal(isinstance(args[0], VStr)))
     if name == "char_at":
         return VInt(S(0)[ex.as_int(args[1])])
     if name == "first_index":
